@@ -1154,14 +1154,28 @@ def main(argv=None):
     if probes:
         def want(name):
             return probes is True or probes == name
+
+        def guarded(name, fn, *a, **kw):
+            """a probe scenario that no longer runs through is itself a behaviour change of the code"""
+            try:
+                return fn(*a, **kw)
+            except InfraError:
+                raise
+            except Exception as e:
+                import traceback
+                ck.violation('C16:probe-scenario-failed:' + name,
+                             'the scenario of probe %s raised %s: %s' % (name, type(e).__name__, e),
+                             dict(probe=name, traceback=traceback.format_exc()[-1500:]))
+                return None
         if want('tid-below-base'):
-            bad, info = probe_tid_below_base(ck.tmp, ck.rng)
+            bad, info = guarded('tid-below-base', probe_tid_below_base, ck.tmp, ck.rng) or (None, {})
             excluded['TidOrdered violated (base ahead of the clock)'] = bad or 'no wrong answer observed'
             ck.count('probe:tid-below-base')
             if bad:
                 ck.violation('C16:demo-tid-below-base', bad, dict(probe='tid-below-base', **info))
         if want('tid-below-base-explicit-none'):
-            bad, info = probe_tid_below_base(ck.tmp, ck.rng, explicit_none=True)
+            bad, info = guarded('tid-below-base-explicit-none', probe_tid_below_base, ck.tmp, ck.rng,
+                                explicit_none=True) or (None, {})
             excluded['TidOrdered violated (base ahead of the clock, tpc_begin(txn, None))'] = \
                 bad or 'no wrong answer observed'
             ck.count('probe:tid-below-base-explicit-none')
@@ -1169,7 +1183,7 @@ def main(argv=None):
                 ck.violation('C16:demo-tid-below-base-explicit-none', 'tpc_begin(txn, None): ' + bad,
                              dict(probe='tid-below-base-explicit-none', **info))
         if want('undo-over-base'):
-            a, b = probe_undo_over_base(ck.tmp, ck.rng)
+            a, b = guarded('undo-over-base', probe_undo_over_base, ck.tmp, ck.rng) or (None, None)
             excluded['un-creation written over a base object (undo of its first change)'] = [a, b]
             ck.count('probe:undo-over-base')
             if a:
@@ -1180,14 +1194,14 @@ def main(argv=None):
             # not modelled (gc pack of the implicit MappingStorage changes knows nothing about the base): on
             # the repaired tree it raises KeyError on the first base-only oid and loses nothing; reads at
             # and after the pack time are compared, an exception alone is only noted
-            bad, note = probe_pack_temp(ck.tmp, ck.rng)
+            bad, note = guarded('pack-temp', probe_pack_temp, ck.tmp, ck.rng) or (None, 'scenario failed')
             excluded['pack through a demo storage with implicit (temporary) changes over a non-empty base'] = \
                 bad or ('reads unchanged (%s)' % note)
             ck.count('probe:pack-temp:' + ('lost' if bad else note.split('(')[0].strip().replace(' ', '-')))
             if bad:
                 ck.violation('C16:pack-temporary-changes-loses-data', bad, dict(probe='pack-temp'))
         if want('uncreated-reissue'):
-            bad = probe_uncreated_reissue(ck.tmp, ck.rng)
+            bad = guarded('uncreated-reissue', probe_uncreated_reissue, ck.tmp, ck.rng)
             excluded['adversarial draw proposing an oid whose newest record is an un-creation'] = \
                 bad or 'no wrong answer observed'
             ck.count('probe:uncreated-reissue')
